@@ -84,7 +84,7 @@ def regexes_for(rnd, mods):
 
 
 def plan(tier, seed):
-    return [{"kind": "random", "n": 450 if tier == "quick" else 9000} for _ in range(10 if tier == "quick" else 16)]
+    return [{"kind": "random", "n": 800 if tier == "quick" else 9000} for _ in range(10 if tier == "quick" else 16)]
 
 
 def run_shard(spec, acc):
